@@ -25,6 +25,7 @@ from typing import Any
 
 from happysimulator.core.entity import Entity
 from happysimulator.core.event import Event
+from happysimulator.core.sim_future import SimFuture
 
 logger = logging.getLogger(__name__)
 
@@ -163,8 +164,11 @@ class Semaphore(Entity):
 
         acquired = [False]
 
+        wake = SimFuture()
+
         def on_wake():
             acquired[0] = True
+            wake.resolve()
 
         waiter = _Waiter(count=count, callback=on_wake, enqueue_time_ns=enqueue_time)
         self._waiters.append(waiter)
@@ -174,7 +178,7 @@ class Semaphore(Entity):
             self._peak_waiters = len(self._waiters)
 
         while not acquired[0]:
-            yield 0.0
+            yield wake  # park until woken: no zero-delay polling
 
         self._acquisitions += count
 
